@@ -843,6 +843,7 @@ pub struct RunStats {
     pub fd_limit_decisions: u64,
     pub emfile: u64,
     pub max_open_fds: u64,
+    pub parallel_stages: u64,
 }
 
 impl RunStats {
@@ -882,6 +883,7 @@ impl RunStats {
         self.fd_limit_decisions += o.fd_limit_decisions;
         self.emfile += o.emfile;
         self.max_open_fds = self.max_open_fds.max(o.max_open_fds);
+        self.parallel_stages += o.parallel_stages;
     }
 }
 
@@ -1041,6 +1043,8 @@ pub struct World {
     pub fd_exhausted: bool,
     /// tasks that yielded (polled) since they last ran: not offered while others can run
     pub yielded: std::collections::BTreeSet<u32>,
+    /// size of the simulated rayon pool (decided like the core count, or set by the program)
+    pub rayon_threads: Option<u32>,
 }
 
 thread_local! {
@@ -1131,6 +1135,7 @@ impl World {
             fd_limit: None,
             fd_exhausted: false,
             yielded: Default::default(),
+            rayon_threads: None,
         }
     }
 
